@@ -39,6 +39,8 @@ def build_wsgi_app(hook=lambda: None):
     class Ctx:
         def process_request(self, req, resp):
             req.context.tag = req.get_header('X-Tag')
+            # req.params is the request's own mapping; applications add derived values to it
+            req.params['mw'] = req.get_header('X-Tag')
 
         def process_resource(self, req, resp, resource, params):
             # documented: process_resource may modify the params passed to the responder
@@ -58,20 +60,26 @@ def build_wsgi_app(hook=lambda: None):
     class Item:
         def on_get(self, req, resp, x, tenant=None):
             resp.media = {'route': 'a', 'x': x, 'q': req.get_param('q'), 'tag': req.context.tag, 'tenant': tenant,
+                          'mw': req.get_param('mw'),
                           'pref': req.client_prefers(['application/json', 'text/plain'])}
 
         def on_post(self, req, resp, x, tenant=None):
-            doc = req.get_media()
-            resp.media = {'route': 'a', 'x': x, 'doc': doc, 'tag': req.context.tag, 'tenant': tenant}
+            if 'urlencoded' in (req.content_type or ''):
+                doc = {k: req.params[k] for k in sorted(req.params)}       # query + auto-parsed form fields
+            else:
+                doc = req.get_media()
+            resp.media = {'route': 'a', 'x': x, 'doc': doc, 'tag': req.context.tag, 'tenant': tenant,
+                          'mw': req.get_param('mw')}
 
     class Other:
         def on_get(self, req, resp, y, tenant=None):
             if y == 13:
                 raise falcon.HTTPBadRequest(title='unlucky', description=req.context.tag)
-            resp.media = {'route': 'b', 'y': y, 'tag': req.context.tag, 'tenant': tenant}
+            resp.media = {'route': 'b', 'y': y, 'tag': req.context.tag, 'tenant': tenant, 'mw': req.get_param('mw')}
 
     router = CompiledRouter()
     app = falcon.App(router=router, middleware=[Ctx(), Pause()])
+    app.req_options.auto_parse_form_urlencoded = True
     app.add_route('/a/{x:int}', Item())
     app.add_route('/b/{y:int}', Other())
     return app, router
@@ -84,6 +92,7 @@ def build_asgi_app(gate):
     class Ctx:
         async def process_request(self, req, resp):
             req.context.tag = req.get_header('X-Tag')
+            req.params['mw'] = req.get_header('X-Tag')
             await gate()
 
         async def process_resource(self, req, resp, resource, params):
@@ -101,19 +110,23 @@ def build_asgi_app(gate):
         async def on_get(self, req, resp, x, tenant=None):
             await gate()
             resp.media = {'route': 'a', 'x': x, 'q': req.get_param('q'), 'tag': req.context.tag, 'tenant': tenant,
+                          'mw': req.get_param('mw'),
                           'pref': req.client_prefers(['application/json', 'text/plain'])}
 
         async def on_post(self, req, resp, x, tenant=None):
             doc = await req.get_media()
             await gate()
-            resp.media = {'route': 'a', 'x': x, 'doc': doc, 'tag': req.context.tag, 'tenant': tenant}
+            if 'urlencoded' in (req.content_type or ''):
+                doc = dict(sorted(dict(doc, **{k: v for k, v in req.params.items()}).items()))
+            resp.media = {'route': 'a', 'x': x, 'doc': doc, 'tag': req.context.tag, 'tenant': tenant,
+                          'mw': req.get_param('mw')}
 
     class Other:
         async def on_get(self, req, resp, y, tenant=None):
             if y == 13:
                 raise falcon.HTTPBadRequest(title='unlucky', description=req.context.tag)
             await gate()
-            resp.media = {'route': 'b', 'y': y, 'tag': req.context.tag, 'tenant': tenant}
+            resp.media = {'route': 'b', 'y': y, 'tag': req.context.tag, 'tenant': tenant, 'mw': req.get_param('mw')}
 
     app = falcon.asgi.App(middleware=[Ctx(), Pause()])
     app.add_route('/a/{x:int}', Item())
@@ -134,11 +147,17 @@ def request_pool():
         Req('GET', b'/a/3', b'q=two', [('X-Tag', 't7'), ('Accept', 'text/plain')]),          # same path as #0
         Req('POST', b'/a/5', b'', [('X-Tag', 't8'), ('Content-Type', 'application/json')], b'{"other": true}',
             chunks=[3]),                                                                      # same path as #2
+        Req('GET', b'/a/3', b'q=one', [('X-Tag', 't9')]),                                    # same query string as #0
+        Req('GET', b'/b/7', b'', [('X-Tag', 't10')]),                                        # no query string, like #1
+        Req('POST', b'/a/5', b'k=v', [('X-Tag', 't11'), ('Content-Type', 'application/x-www-form-urlencoded')],
+            b'user=alice&pin=1111', chunks=[7]),
+        Req('POST', b'/a/5', b'k=v', [('X-Tag', 't12'), ('Content-Type', 'application/x-www-form-urlencoded')],
+            b'user=bob&pin=2222', chunks=[4]),                                                # same query string as #10
     ]
 
 
 NAMES = ['GET /a/3', 'GET /b/7', 'POST /a/5', 'GET /b/13 (400)', 'GET /a/nope (404)', 'PUT /b/2 (405)',
-         'GET /a/3 #2', 'POST /a/5 #2']
+         'GET /a/3 #2', 'POST /a/5 #2', 'GET /a/3?q=one #3', 'GET /b/7 #2', 'POST form alice', 'POST form bob']
 
 
 def proj(res):
@@ -342,8 +361,8 @@ def run(ctx):
 
     pool = request_pool()
     names = NAMES
-    pairs = [(0, 1), (0, 6), (2, 7), (2, 1), (0, 3), (4, 2), (5, 0), (6, 0)]
-    triples = [(0, 6, 2), (0, 1, 2), (3, 4, 5), (2, 7, 6)]
+    pairs = [(0, 8), (1, 9), (10, 11), (0, 6), (2, 7), (0, 1), (2, 1), (0, 3), (4, 2), (5, 0), (6, 0)]
+    triples = [(0, 8, 1), (1, 9, 10), (0, 6, 2), (0, 1, 2), (3, 4, 5), (2, 7, 6)]
 
     def check_threads(idx, choices=(), prefer=None, origin=''):
         reqs = [pool[i] for i in idx]
@@ -396,7 +415,7 @@ def run(ctx):
 
     # ---- leg B (threads): preemption-bounded DFS over real schedules ---------------------------
     P = ctx.pick(2, 3)
-    for idx in (pairs[:ctx.pick(4, 8)] + triples[:ctx.pick(1, 4)]):
+    for idx in (pairs[:ctx.pick(5, 11)] + triples[:ctx.pick(2, 6)]):
         stack = [[]]
         budget = ctx.pick(400, 6000)
         while stack and budget > 0:
@@ -436,7 +455,7 @@ def run(ctx):
     ctx.extra['tlc_task_schedules'] = len(tscheds)
     serial_t = serial_tasks(pool)
     step = max(1, len(tscheds) // ctx.pick(150, 924))
-    combos = pairs + [(3, 0), (7, 2)]
+    combos = pairs + [(3, 0), (7, 2), (11, 10), (9, 1)]
     n = 0
     for k, sc in enumerate(tscheds[::step]):
         idx = combos[k % len(combos)]
